@@ -469,9 +469,14 @@ def _run_gram(case):
     probes = {k: 0 for k in PROBES}
     probes['gram_cases'] = 1
     api = case['api']
+    build_warnings = []
     try:
-        hint = J.build(case['hint'])
-        other = J.build(case['other']) if api in ('is_subhint_left', 'is_subhint_right', 'typehint_cmp') else None
+        # (building a hint may already run beartype code - typing hashes / reprs the validators it is given - and beartype
+        # code may warn there: warnings are recorded from here on)
+        with warnings.catch_warnings(record=True) as build_warnings:
+            warnings.simplefilter('always')
+            hint = J.build(case['hint'])
+            other = J.build(case['other']) if api in ('is_subhint_left', 'is_subhint_right', 'typehint_cmp') else None
     except J.Unbuildable:
         probes['gram_unbuildable'] = 1
         return probes, None
@@ -567,11 +572,18 @@ def _run_gram(case):
                 if viol:
                     break
     if viol is None:
-        for w in wlist:
-            if not issubclass(w.category, roar.BeartypeWarning) and '/beartype/' in (w.filename or ''):
-                viol = ('foreign_warning', '%s with hint %s emitted %s: %s' % (api, J.show(case['hint']), w.category.__name__, str(w.message)[:200]),
-                        'warning:' + w.category.__name__)
-                break
+        for w in list(build_warnings) + list(wlist):
+            if issubclass(w.category, roar.BeartypeWarning):
+                continue
+            if issubclass(w.category, (DeprecationWarning, PendingDeprecationWarning, SyntaxWarning)) and '/beartype/' not in (w.filename or ''):
+                continue        # the standard library speaking about the hint the user wrote
+            if gconf == 'warn' and w.category is UserWarning and 'violates type hint' in str(w.message):
+                continue        # the violation itself, issued under the configured class
+            # everything else was issued by beartype (whatever frame the stack level attributes it to): it must be a
+            # BeartypeWarning
+            viol = ('foreign_warning', '%s with hint %s emitted %s: %s' % (api, J.show(case['hint']), w.category.__name__, str(w.message)[:200]),
+                    'warning:' + w.category.__name__)
+            break
     return probes, viol
 
 
